@@ -44,6 +44,71 @@ pub fn run(ctx: &Ctx) -> (Spec, Report) {
             }
         }
     }
+    // sensitivity of the five hand-written readers: delete one token from a well-formed expectation file and see whether
+    // the reader still accepts the text. Deleting a token does not always make a file ill-formed (an optional `;`, a
+    // modifier, one of two annotations), so the accepted cases are listed for review rather than counted as failures.
+    if ctx.tier == crate::report::Tier::Thorough || std::env::var("VERIF_SENSITIVITY").is_ok() {
+        let mut rng = crate::rng::Rng::derive(ctx.seed, "selftest-token-deletion", 0);
+        let mut entries: Vec<_> = std::fs::read_dir(&dir).expect("corpus").flatten().collect();
+        entries.sort_by_key(|e| e.file_name());
+        let mut tally: std::collections::BTreeMap<String, (u64, u64, u64)> = Default::default();
+        let mut shown: std::collections::BTreeMap<String, u32> = Default::default();
+        for e in entries {
+            for (ext, lang) in [("ts", LangId::Ts), ("kt", LangId::Kotlin), ("swift", LangId::Swift), ("scala", LangId::Scala), ("go", LangId::Go)] {
+                let p = e.path().join(format!("output.{ext}"));
+                let Ok(text) = std::fs::read_to_string(&p) else { continue };
+                let lexed = crate::lex::lex(lang, &text);
+                if lexed.toks.is_empty() {
+                    continue;
+                }
+                for _ in 0..12 {
+                    let t = &lexed.toks[rng.below(lexed.toks.len())];
+                    let class = match t.kind {
+                        crate::lex::TokKind::Punct => format!("`{}`", t.text),
+                        crate::lex::TokKind::Ident if t.text.chars().all(|c| c.is_ascii_lowercase()) && t.text.len() <= 9 => format!("word:{}", t.text),
+                        crate::lex::TokKind::Ident => "identifier".to_string(),
+                        _ => "literal".to_string(),
+                    };
+                    let mutated = format!("{}{}", &text[..t.start], &text[t.end..]);
+                    let (st, _) = parse_text(lang, &mutated);
+                    let key = format!("{ext}|{class}");
+                    let ent = tally.entry(key.clone()).or_insert((0, 0, 0));
+                    rep.eval(1);
+                    match st {
+                        ParseStatus::IllFormed(_) => ent.0 += 1,
+                        ParseStatus::OutsideSubset(_) => ent.1 += 1,
+                        ParseStatus::Parsed(f) => {
+                            if f.syntax_issues.is_empty() {
+                                ent.2 += 1;
+                                let n = shown.entry(key.clone()).or_insert(0);
+                                if *n < 2 && verbose {
+                                    *n += 1;
+                                    let lo = t.start.saturating_sub(40);
+                                    let hi = (t.end + 40).min(text.len());
+                                    println!("ACCEPTED-AFTER-DELETION {key} {}: ...{}[[{}]]{}...", p.display(), text[lo..t.start].replace('\n', "\\n"), t.text, text[t.end..hi].replace('\n', "\\n"));
+                                }
+                            } else {
+                                ent.0 += 1;
+                            }
+                        }
+                    }
+                }
+            }
+        }
+        let (mut rej, mut out, mut acc) = (0u64, 0u64, 0u64);
+        for (k, (r, o, a)) in &tally {
+            rej += r;
+            out += o;
+            acc += a;
+            if *a > 0 || *o > 0 {
+                println!("SENSITIVITY {k}: rejected={r} outside-subset={o} accepted={a}");
+            }
+        }
+        println!("SENSITIVITY total single-token deletions: rejected={rej} outside-subset={out} still-accepted={acc}");
+        rep.count("token_deletions_rejected", rej);
+        rep.count("token_deletions_outside_subset", out);
+        rep.count("token_deletions_still_accepted", acc);
+    }
     let scratch = ctx.scratch("selftest");
     let srcs: Vec<(&str, bool)> = pys.iter().map(|(_, t)| (t.as_str(), true)).collect();
     let res = python::check_batch(&ctx.verif, &scratch, &srcs, ctx.threads);
